@@ -1,7 +1,10 @@
 //! vh — verification harness for qbice (see /verif/DESIGN.md).
 #![allow(clippy::all)]
 
+pub mod c01;
+pub mod c02;
 pub mod c04;
+pub mod hist;
 pub mod memkv;
 pub mod pq;
 pub mod report;
